@@ -237,7 +237,14 @@ package ircserver
 //@   ensures owner: wfOwner(i)
 //@   modifies map[i.nicks], map[i.channels], maptype(map[lcChan]bool), maptype(map[lcNick]*[2]bool), Session.deleted[s]
 //@   loop range i.channels
-//@     invariant wfBase(i) && wfSessions(i) && wfNicks(i) && wfChannels(i) && wfOwner(i) && wfMemberExcept(i, s) && !s.deleted
+//@     invariant wfBase(i) && wfSessions(i) && !s.deleted
+//@     invariant wfNicks(i)
+//@     invariant chanShape(i)
+//@     invariant chanMembers(i)
+//@     invariant chanReverse(i)
+//@     invariant chanNonEmpty(i)
+//@     invariant wfOwner(i)
+//@     invariant wfMemberExcept(i, s)
 //@     invariant forall ch lcChan :: ch in i.channels ==> old(ch in i.channels) && i.channels[ch] == old(i.channels[ch])
 //@     invariant forall ch lcChan :: seen(ch) && ch in i.channels ==> !(NickToLower(s.Nick) in i.channels[ch].nicks)
 //@     invariant forall x robust.Id :: (x in i.sessions <==> old(x in i.sessions)) && (x in i.sessions ==> i.sessions[x] == old(i.sessions[x]))
@@ -609,3 +616,32 @@ package ircserver
 //@     invariant reverse: forall ch lcChan, n lcNick :: ch in i.channels && n in i.channels[ch].nicks && n in i.nicks ==> ch in i.nicks[n].Channels
 //@     invariant reverseold: forall ch lcChan :: ch in i.channels && oldNick in i.channels[ch].nicks ==> ch in session.Channels
 //@     invariant nonempty: forall ch lcChan :: ch in i.channels ==> (exists n lcNick :: n in i.channels[ch].nicks)
+
+// ---------------------------------------------------------------------------
+// C14: what the representation invariant means for the user
+
+//@ pred wfAll(i *IRCServer) = wfMid(i) && wfAuth(i) && wfLogin(i) && wfAlive(i)
+
+// A fresh server satisfies the invariant.
+//@ func NewIRCServer
+//@   ensures wf: result != nil && wfAll(result)
+//@   ensures empty: forall x robust.Id :: !(x in result.sessions)
+
+// No two live sessions own nicknames that are equal under the IRC case mapping.
+//@ func lemma_uniquenicks
+//@   opt params = i *IRCServer, a robust.Id, b robust.Id
+//@   requires wfAll(i) && a in i.sessions && b in i.sessions && a != b
+//@   requires i.sessions[a].Nick != "" && i.sessions[b].Nick != ""
+//@   ensures distinct: NickToLower(i.sessions[a].Nick) != NickToLower(i.sessions[b].Nick)
+
+// A session lists a channel iff that channel lists the session; members are live sessions reachable by nickname.
+//@ func lemma_membership
+//@   opt params = i *IRCServer, a robust.Id, ch lcChan
+//@   requires wfAll(i) && a in i.sessions
+//@   ensures lists: ch in i.sessions[a].Channels ==> ch in i.channels && NickToLower(i.sessions[a].Nick) in i.channels[ch].nicks
+//@   ensures listed: ch in i.channels && i.sessions[a].Nick != "" && NickToLower(i.sessions[a].Nick) in i.channels[ch].nicks ==> ch in i.sessions[a].Channels
+//@ func lemma_members
+//@   opt params = i *IRCServer, ch lcChan, n lcNick
+//@   requires wfAll(i) && ch in i.channels && n in i.channels[ch].nicks
+//@   ensures live: n in i.nicks && i.nicks[n].Id in i.sessions && i.sessions[i.nicks[n].Id] == i.nicks[n] && !i.nicks[n].deleted && NickToLower(i.nicks[n].Nick) == n
+//@   ensures nonempty: exists m lcNick :: m in i.channels[ch].nicks
